@@ -252,12 +252,18 @@ def run_part_a(chk, replay=None):
         rec = {"kind": "anybox", "cfg": n, "nv": nv, "ops": ops, "impl_line": il, "impl": io, "model": mo, "monitor": mon,
                "first_diff_op": k, "obligation": "K3 correspondence AnyBox.step vs any_object.hpp / any_unique.hpp",
                "replay": "echo '%s' | %s" % (il, exe)}
-        rp = chk.replay_file("anybox_%s" % hashlib.sha256(il.encode()).hexdigest()[:10], rec)
         if mon:
-            chk.violation("anybox/monitor/%s/%s" % (n, re.sub(r"\d+", "N", re.sub(r"\[.*\]", "[..]", mon))[:50]), rp, text="%s | %s" % (il, mon))
+            key, no_input = "anybox/monitor/%s/%s" % (n, re.sub(r"\d+", "N", re.sub(r"\[.*\]", "[..]", mon))[:50]), False
+            text = "%s | %s" % (il, mon)
         else:
-            chk.violation("anybox/corr/%s/%s" % (n, opk), rp, no_input=True,
-                          text="%s | op %d: impl=%s model=%s" % (il, k, (a[k] if k < len(a) else "-")[:120], (b[k] if k < len(b) else "-")[:120]))
+            key, no_input = "anybox/corr/%s/%s" % (n, opk), True
+            text = "%s | op %d: impl=%s model=%s" % (il, k, (a[k] if k < len(a) else "-")[:120], (b[k] if k < len(b) else "-")[:120])
+        seen = chk.__dict__.setdefault("_c18_seen", set())
+        if key in seen:
+            continue                  # one replay file per distinct signature
+        seen.add(key)
+        rp = chk.replay_file("anybox_%s" % hashlib.sha256(il.encode()).hexdigest()[:10], rec)
+        chk.violation(key, rp, no_input=no_input, text=text)
     stats["seconds"] = round(time.time() - t0, 1)
     chk.cov["anybox"] = stats
 
